@@ -34,6 +34,13 @@ def setup_db(path, prev):
     con.close()
 
 
+class InjectedTypeError(TypeError):
+    """the source pipeline may fail with any exception type, e.g. a TypeError from a converter"""
+
+
+FAILURES = (InjectedFailure, InjectedTypeError)
+
+
 def run_load(case, path):
     """Execute one load on a real sqlite file. Returns (outcome, durable, events, extra) where durable is what
     a fresh connection sees after petl's call has returned control."""
@@ -41,7 +48,8 @@ def run_load(case, path):
     setup_db(path, case['prev'])
     rec = Recorder(path)
     fail = case['failAt']
-    src = ProbeTable(['v'], rows=[[v] for v in case['new']], fail_at=(fail - 1) if fail else None)
+    exc = FAILURES[case.get('exc', 0)]
+    src = ProbeTable(['v'], rows=[[v] for v in case['new']], fail_at=(fail - 1) if fail else None, exc=exc)
     fn = etl.todb if case['op'] == 'todb' else etl.appenddb
     h = case['handle']
     conn = None
@@ -60,7 +68,7 @@ def run_load(case, path):
             rec_start = len(rec.events)
             fn(src, dbo, 't', commit=case['commit'])
             outcome = 'returned'
-        except InjectedFailure:
+        except FAILURES:
             outcome = 'raised'
         except Exception as e:
             outcome = 'error: %r' % (e,)
@@ -141,11 +149,14 @@ def to_trace(case, outcome, events):
 def record_traces(n, seed, path):
     rng = random.Random(seed)
     traces = []
-    for _ in range(n):
-        new = list(range(1, rng.randrange(0, 9) + 1))
+    for ti in range(n):
+        big = ti % 25 == 0          # a few large loads: failures far into the table (batching / chunked commits)
+        new = list(range(1, (rng.randrange(150, 320) if big else rng.randrange(0, 9)) + 1))
         case = {'prev': [rng.choice([7, 8]) for _ in range(rng.randrange(0, 4))], 'new': new,
                 'op': rng.choice(['todb', 'appenddb']), 'handle': rng.choice(['filename', 'connection', 'cursor', 'mkcurs']),
-                'commit': rng.random() < 0.7, 'failAt': rng.choice([0, 0, rng.randrange(1, len(new) + 3)])}
+                'commit': rng.random() < 0.7,
+                'failAt': (rng.choice([0, rng.randrange(100, len(new) + 3), len(new) + 2]) if big else rng.choice([0, 0, rng.randrange(1, len(new) + 3)]))}
+        case['exc'] = rng.randrange(2)
         outcome, durable, events, _ = run_load(case, path)
         tr = to_trace(case, outcome, events)
         tr['outcome'] = outcome
@@ -178,7 +189,7 @@ def validate_traces(chk, traces, seed):
         ok = v2[1][0] != 0
         chk.binding_demo = {'corrupted': 'durable contents at the failure event replaced by an empty table', 'verdict': list(v2[1]),
                             'rejected_as_expected': ok}
-        if not ok:
+        if not ok and not chk.violations:
             raise tlc.MachineryError('binding demo failed: corrupted db trace accepted')
 
 
@@ -197,6 +208,7 @@ def run(tier, seed):
     with common.private_tmp() as tmp:
         path = os.path.join(tmp, 'c17.db')
         for ci, case in enumerate(cases):
+            case['exc'] = ci % 2           # alternate the exception type the source fails with
             check_case(chk, case, path)
             chk.count(('load', ci))
             chk.replayed += 1
